@@ -339,7 +339,11 @@ class Judge:
                     max(res["knobs"].get("max_epochs", 1), 1) * pr.p
             se = res.get("seam") or {}
             cmax = max(se.get("max_abs_c", 0.0) or 0.0, se.get("hist_max_abs_c", 0.0) or 0.0)
-            allow = EPS * scale * (1e4 + 10 * np.sqrt(n_updates)) + 100 * EPS * cmax * scale
+            # rounding of the in-place updates: a random-walk term plus a quarter ulp of
+            # systematic drift per update (runs that burn a 300 x 3000-epoch budget on an
+            # unreachable tolerance perform 1e7 updates; observed 6.6e-10 on values of size 4)
+            allow = EPS * scale * (1e4 + 10 * np.sqrt(n_updates) + 0.25 * n_updates) \
+                + 100 * EPS * cmax * scale
             if s.solver_name == "PDCD_WS":
                 # up to 1e6 in-place updates whose count is not observable: a relative 1e-7
                 allow = max(allow, 1e-7 * scale)
